@@ -183,6 +183,82 @@ pub fn run(ctx: &Ctx, rep: &Report) {
             scan(2_000_001, &move |i| c - 1_000_000 + i, "week:+-1e6s-around-2^k");
         }
     }
+    // call sequences (the conversions are called once per reception of a feed: whatever they remember between calls
+    // - the current day, the current week - is hidden state): every sequence of up to 4 (thorough 5) calls over an
+    // alphabet of instants on either side of every constant (0, 18 s, the day and week boundaries), each sequence on
+    // a fresh thread, every call held to the arithmetic oracle
+    {
+        let s = 1_000_000_000u64;
+        let d = 86_400 * s;
+        let tow: Vec<u64> = vec![0, 5 * s, 18 * s - 1, 18 * s, 20 * s + 1234, d - 1, d + 17 * s, d + 18 * s, 3 * d + 40_000 * s, 6 * d + 17 * s, 6 * d + 18 * s, 6 * d + 19 * s, 7 * d - 110 * s, 7 * d - 1];
+        let len = if thorough { 5 } else { 4 };
+        let k = tow.len();
+        let nseq = (k as u64).pow(len as u32);
+        let cnt = std::sync::atomic::AtomicU64::new(0);
+        par_ranges(ctx.threads, nseq, 64, |lo, hi| {
+            let mut c = 0u64;
+            for code in lo..hi {
+                let seq: Vec<u64> = (0..len).map(|i| tow[((code / (k as u64).pow(i as u32)) % k as u64) as usize]).collect();
+                let bad = std::thread::scope(|sc| {
+                    sc.spawn(|| {
+                        for (i, t) in seq.iter().enumerate() {
+                            if let Some((cl, what)) = check_tow(*t) {
+                                return Some((cl, what, i));
+                            }
+                        }
+                        None
+                    })
+                    .join()
+                    .unwrap_or(None)
+                });
+                c += len as u64;
+                if let Some((cl, what, i)) = bad {
+                    rep.violation(&format!("sequence:{cl}"), format!("call {i} of the sequence {seq:?}: {what}"), json!({"kind": "tow-sequence", "sequence": seq}));
+                }
+                if stopped() {
+                    break;
+                }
+            }
+            cnt.fetch_add(c, std::sync::atomic::Ordering::Relaxed);
+            rep.eval(c);
+        });
+        rep.part("tow: every call sequence over instants on either side of every constant, each on a fresh thread", cnt.load(std::sync::atomic::Ordering::Relaxed), json!({"alphabet": k, "length": len, "sequences": nseq}));
+        // the same for the week start: Unix times on either side of GPS week boundaries, inside one Unix week and
+        // years apart
+        let b = GPS_EPOCH - 18 + 2000 * 604_800;
+        let now: Vec<u64> = vec![GPS_EPOCH, GPS_EPOCH + 17, b - 1, b, b + 1, b + 18, b - 604_800, b + 604_799, b + 302_400, b - 259_200, b + 345_600, 4_102_444_800];
+        let k = now.len();
+        let nseq = (k as u64).pow(len as u32);
+        let cnt = std::sync::atomic::AtomicU64::new(0);
+        par_ranges(ctx.threads, nseq, 64, |lo, hi| {
+            let mut c = 0u64;
+            for code in lo..hi {
+                let seq: Vec<u64> = (0..len).map(|i| now[((code / (k as u64).pow(i as u32)) % k as u64) as usize]).collect();
+                let bad = std::thread::scope(|sc| {
+                    sc.spawn(|| {
+                        for (i, t) in seq.iter().enumerate() {
+                            if let Some((cl, what)) = check_week(*t) {
+                                return Some((cl, what, i));
+                            }
+                        }
+                        None
+                    })
+                    .join()
+                    .unwrap_or(None)
+                });
+                c += len as u64;
+                if let Some((cl, what, i)) = bad {
+                    rep.violation(&format!("sequence:{cl}"), format!("call {i} of the sequence {seq:?}: {what}"), json!({"kind": "week-sequence", "sequence": seq}));
+                }
+                if stopped() {
+                    break;
+                }
+            }
+            cnt.fetch_add(c, std::sync::atomic::Ordering::Relaxed);
+            rep.eval(c);
+        });
+        rep.part("week: every call sequence over Unix times on either side of week boundaries, each on a fresh thread", cnt.load(std::sync::atomic::Ordering::Relaxed), json!({"alphabet": k, "length": len, "sequences": nseq}));
+    }
     let nw = weeks.lock().unwrap().len() as u64;
     rep.nontriv(nw);
     rep.outcome("distinct-week-starts", nw);
@@ -205,6 +281,25 @@ pub fn run(ctx: &Ctx, rep: &Report) {
 
 pub fn replay(w: &Value, rep: &Report) {
     match w["kind"].as_str() {
+        Some("tow-sequence") | Some("week-sequence") => {
+            let week = w["kind"].as_str() == Some("week-sequence");
+            let seq: Vec<u64> = w["sequence"].as_array().map(|a| a.iter().filter_map(|x| x.as_u64()).collect()).unwrap_or_default();
+            let bad = std::thread::scope(|sc| {
+                sc.spawn(|| {
+                    for (i, t) in seq.iter().enumerate() {
+                        if let Some((cl, what)) = if week { check_week(*t) } else { check_tow(*t) } {
+                            return Some((cl, what, i));
+                        }
+                    }
+                    None
+                })
+                .join()
+                .unwrap_or(None)
+            });
+            if let Some((cl, what, i)) = bad {
+                rep.violation(&format!("sequence:{cl}"), format!("call {i} of the sequence {seq:?}: {what}"), w.clone());
+            }
+        }
         Some("tow") => {
             let t = w["t"].as_u64().unwrap();
             if let Some((c, what)) = check_tow(t) {
